@@ -105,7 +105,9 @@ func (c *Cond) Expr() string {
 	return "false"
 }
 
-// XPath renders XPath 1.0 text over the engine's <doc><v>..</v></doc> view.
+// XPath renders XPath 1.0 text. The engine serialises the variables as
+// <doc><v>..</v>..</doc>, or as a bare <v>..</v> document when there is exactly
+// one variable, so variables are addressed as //v (valid for both shapes).
 func (c *Cond) XPath() string {
 	switch c.Op {
 	case "true":
@@ -113,7 +115,7 @@ func (c *Cond) XPath() string {
 	case "false":
 		return "false()"
 	case "var":
-		return fmt.Sprintf("/doc/%s = 'true'", c.Var)
+		return fmt.Sprintf("//%s = 'true'", c.Var)
 	case "not":
 		return "not(" + c.L.XPath() + ")"
 	case "and":
@@ -121,13 +123,13 @@ func (c *Cond) XPath() string {
 	case "or":
 		return "(" + c.L.XPath() + ") or (" + c.R.XPath() + ")"
 	case "eq":
-		return fmt.Sprintf("/doc/%s = %d", c.Var, c.K)
+		return fmt.Sprintf("//%s = %d", c.Var, c.K)
 	case "ne":
-		return fmt.Sprintf("/doc/%s != %d", c.Var, c.K)
+		return fmt.Sprintf("//%s != %d", c.Var, c.K)
 	case "lt":
-		return fmt.Sprintf("/doc/%s < %d", c.Var, c.K)
+		return fmt.Sprintf("//%s < %d", c.Var, c.K)
 	case "gt":
-		return fmt.Sprintf("/doc/%s > %d", c.Var, c.K)
+		return fmt.Sprintf("//%s > %d", c.Var, c.K)
 	}
 	return "false()"
 }
